@@ -595,9 +595,17 @@ def gen_affine(rng, allow_k3=False):
                 st = [step_of(x, extents[d["q"]], {}) for x in dirs]
                 if st[0] < st[1]:
                     dirs.reverse()
-            part[d["q"]] = dirs
-            part[d["w"]] = ["follow(%s)" % d["q"]]
-            plevels[d["q"]] = nlev
+            if d["s"] and nlev == 1 and rng.random() < 0.25:
+                # partition the filter rank instead; the accessed rank follows it
+                part[d["s"]] = dirs
+                part[d["w"]] = ["follow(%s)" % d["s"]]
+                plevels[d["s"]] = nlev
+                d["part_rank"] = d["s"]
+            else:
+                part[d["q"]] = dirs
+                part[d["w"]] = ["follow(%s)" % d["q"]]
+                plevels[d["q"]] = nlev
+                d["part_rank"] = d["q"]
     # loop order
     lo_mode = "default" if rng.random() < 0.2 else "explicit"
     if lo_mode == "explicit":
@@ -609,11 +617,15 @@ def gen_affine(rng, allow_k3=False):
                 rng.shuffle(pick)
             else:
                 pick = [d["q"]]
-            if d["q"] in plevels:
-                n = plevels[d["q"]]
-                # upper levels named after the output rank, bottom level may be any of the picked ranks
-                uppers = [d["q"] + str(i) for i in range(n, 0, -1)]
-                lowers = [(x + "0") if x in (d["q"], d["w"]) else x for x in pick]
+            pr = d.get("part_rank")
+            if pr is not None and pr in plevels:
+                n = plevels[pr]
+                # upper levels named after the partitioned rank, bottom level may be any of the picked ranks
+                uppers = [pr + str(i) for i in range(n, 0, -1)]
+                if pr == d["s"] and d["s"] not in pick:
+                    pick = [d["q"], d["s"]]
+                    rng.shuffle(pick)
+                lowers = [(x + "0") if x in (pr, d["w"]) else x for x in pick]
                 groups.append(uppers + lowers)
             else:
                 groups.append(pick)
@@ -706,7 +718,26 @@ def gen_cascade(rng, n_min=2, n_max=4, partition_p=0.5):
         all_ranks = default_loop_order(tmp_spec, out, expr)
         em = {"out": out, "ranks": all_ranks, "kind": "plain"}
         groups = [[r] for r in all_ranks]
-        if rng.random() < partition_p and nterms == 1:
+        flat_cands = [t for t in dense.expr_tensors(expr) if len([r for r in decl[t] if r in out_ranks]) >= 2]
+        if rng.random() < 0.2 and nterms == 1 and flat_cands:
+            # flatten 2-3 ranks of one operand that all belong to the output: the intermediate has to be
+            # un-flattened again before the next Einsum reads it
+            t = rng.choice(flat_cands)
+            cand = [r for r in decl[t] if r in out_ranks]
+            fr = rng.sample(cand, min(len(cand), rng.choice([2, 3, 3])))
+            name = "".join(fr)
+            p = {"(" + ", ".join(fr) + ")": ["flatten()"]}
+            if rng.random() < 0.4:
+                p[name] = ["uniform_occupancy(%s.%d)" % (t, rng.choice([1, 2, 3]))]
+                flv = [name + "1", name + "0"]
+            else:
+                flv = [name]
+            part[out] = p
+            groups = [[r] for r in all_ranks if r not in fr] + [flv]
+            em["kind"] = "flatten"
+            em["part"] = p
+            lo[out] = loop_order_over(rng, groups, "ordered")
+        elif rng.random() < partition_p and nterms == 1:
             pk = rng.choice(["shape", "occ"])
             p = {}
             hold = holders_of(tmp_spec, expr)
@@ -724,7 +755,7 @@ def gen_cascade(rng, n_min=2, n_max=4, partition_p=0.5):
             groups = [levels_of(r, len(p[r])) if r in p else [r] for r in all_ranks]
             em["kind"] = pk
             em["part"] = p
-        if rng.random() < 0.6:
+        if rng.random() < 0.6 and out not in lo:
             lo[out] = loop_order_over(rng, groups, "ordered")
         einsum_meta.append(em)
     # declaration order shuffled
